@@ -502,6 +502,9 @@ IDENTITY_CALLS = [
 _IDENT_RE = re.compile("|".join("(?:%s)" % p for p in IDENTITY_CALLS))
 
 
+PAYLOAD_VARIANTS = ("Some", "Ok", "Err", "Continue", "Break", "Ready")
+
+
 def call_name(e):
     """callee path of a ('call', ...) expression, full form if available."""
     return e[1] if isinstance(e[1], str) else ""
@@ -573,6 +576,9 @@ def strip(e, through_calls=True):
             e = e[3][0]
         elif k == "downcast":
             e = e[1]
+        elif k == "field" and e[2] == "0" and e[1][0] == "downcast" and e[1][2] in PAYLOAD_VARIANTS:
+            # payload of Some/Ok/Continue/Ready: carries the wrapped value
+            e = e[1][1]
         else:
             return e
     return e
